@@ -2,11 +2,11 @@ package main
 
 import (
 	"fmt"
-	"os"
 	"go/ast"
 	"go/constant"
 	"go/token"
 	"go/types"
+	"os"
 	"sort"
 	"strings"
 
@@ -26,18 +26,18 @@ type frame struct {
 	pre    *State // state at function entry (for old())
 	params map[string]Val
 	// return collection
-	rets   []retPoint
-	name   string
-	hdrs   map[int]*hdrInfo
-	named  map[string]Val
-	defs   []nameDef
-	locals []localCell
-	cur    *ssa.BasicBlock
-	curSt  *State
+	rets    []retPoint
+	name    string
+	hdrs    map[int]*hdrInfo
+	named   map[string]Val
+	defs    []nameDef
+	locals  []localCell
+	cur     *ssa.BasicBlock
+	curSt   *State
 	prevHdr *hdrInfo
 	callOrd map[string]int
-	tuples map[ssa.Value][]Val
-	safety bool // emit nopanic obligations
+	tuples  map[ssa.Value][]Val
+	safety  bool // emit nopanic obligations
 }
 
 type localCell struct {
